@@ -4,8 +4,9 @@
 
    Layout of one block (docs.microsoft.com/windows/win32/menurc/vs-versioninfo and siblings):
      WORD wLength        bytes of the block including children, without padding after it
-     WORD wValueLength   bytes of Value for binary blocks (VS_VERSIONINFO, Var), words for text
-                         blocks (String), zero where there is no Value (StringFileInfo, StringTable, VarFileInfo)
+     WORD wValueLength   bytes of Value for binary blocks (VS_VERSIONINFO, Var; an odd count is possible:
+                         the last byte is the low half of one more word), words for text blocks (String),
+                         zero where there is no Value (StringFileInfo, StringTable, VarFileInfo)
      WORD wType          0 binary, 1 text
      WCHAR szKey[]       NUL terminated
      WORD Padding1[]     to a 32-bit boundary
@@ -18,9 +19,13 @@ From PV.Model Require Import Machine VersionInfo.
 
 Record vstring := { vs_key : list N; vs_value : list N }.      (* the stored value words, terminator included *)
 Record vtable := { vt_key : list N; vt_strings : list vstring }.
+(* a variable: a binary value of whole words; [vv_odd = Some b]: the stored byte count is odd - one more byte, the
+   low byte of the word [b] that follows the value words (counted in wValueLength, padded like a value of that
+   many bytes).  A value is reported as a slice of words, so the report holds the floor(bytes/2) whole words. *)
+Record vvar := { vv_key : list N; vv_value : list N; vv_odd : option N }.
 Inductive vblock :=
 | BStrings (tables : list vtable)
-| BVars (vars : list (list N * list N))
+| BVars (vars : list vvar)
 | BOther (key : list N) (children : list N).
 Record vinfo := { vi_key : list N; vi_fixed : list N; vi_blocks : list vblock }.
 
@@ -46,8 +51,11 @@ Definition enc_string (tight : bool) (s : vstring) : list N :=
   enc_tlv tight 1 (lenN (vs_value s)) (vs_key s) (vs_value s) [].
 Definition enc_table (tight : bool) (t : vtable) : list N :=
   enc_tlv tight 1 0 (vt_key t) [] (enc_seq tight (map (enc_string tight) (vt_strings t))).
-Definition enc_var (tight : bool) (v : list N * list N) : list N :=
-  enc_tlv tight 0 (2 * lenN (snd v)) (fst v) (snd v) [].
+Definition enc_var (tight : bool) (v : vvar) : list N :=
+  match vv_odd v with
+  | None => enc_tlv tight 0 (2 * lenN (vv_value v)) (vv_key v) (vv_value v) []
+  | Some b => enc_tlv tight 0 (2 * lenN (vv_value v) + 1) (vv_key v) (vv_value v ++ [b]) []
+  end.
 Definition enc_block (tight : bool) (b : vblock) : list N :=
   match b with
   | BStrings ts => enc_tlv tight 1 0 StringFileInfo [] (enc_seq tight (map (enc_table tight) ts))
@@ -56,6 +64,14 @@ Definition enc_block (tight : bool) (b : vblock) : list N :=
   end.
 Definition encode (tight : bool) (v : vinfo) : list N :=
   enc_tlv tight 0 (2 * lenN (vi_fixed v)) (vi_key v) (vi_fixed v) (enc_seq tight (map (enc_block tight) (vi_blocks v))).
+
+(* the same encoders over already encoded children (to state what happens when one child is not a block) *)
+Definition enc_table_strings (tight : bool) (key : list N) (strings : list (list N)) : list N :=
+  enc_tlv tight 1 0 key [] (enc_seq tight strings).
+Definition enc_strings_block (tight : bool) (tables : list (list N)) : list N :=
+  enc_tlv tight 1 0 StringFileInfo [] (enc_seq tight tables).
+Definition encode_blocks (tight : bool) (key fixed : list N) (blocks : list (list N)) : list N :=
+  enc_tlv tight 0 (2 * lenN fixed) key fixed (enc_seq tight blocks).
 
 (* ---- the complete report ---- *)
 Definition strip_last_nul (v : list N) : list N :=
@@ -69,7 +85,7 @@ Definition block_events (b : vblock) : list event :=
   [EvFile (block_key b); EvEnter 1] ++
   match b with
   | BStrings ts => flat_map table_events ts
-  | BVars vs => map (fun v => EvVar (fst v) (snd v)) vs
+  | BVars vs => map (fun v => EvVar (vv_key v) (vv_value v)) vs
   | BOther _ _ => []
   end ++ [EvExit 1].
 Definition fixed_opt (f : list N) : option (list N) := if lenN f =? 26 then Some f else None.
@@ -135,7 +151,7 @@ Definition small (ws : list N) : bool := 2 * lenN ws <? 65536.
 Definition string_ok (tight : bool) (s : vstring) : bool := key_ok (vs_key s) && small (enc_string tight s).
 Definition table_ok (tight : bool) (t : vtable) : bool :=
   key_ok (vt_key t) && small (enc_table tight t) && forallb (string_ok tight) (vt_strings t).
-Definition var_ok (tight : bool) (v : list N * list N) : bool := key_ok (fst v) && small (enc_var tight v).
+Definition var_ok (tight : bool) (v : vvar) : bool := key_ok (vv_key v) && small (enc_var tight v).
 Definition block_ok (tight : bool) (b : vblock) : bool :=
   small (enc_block tight b) &&
   match b with
